@@ -126,15 +126,17 @@ type scriptedChild struct {
 	pool  []abs.Event // events it may serve as "stored"
 	evOf  map[string]abs.Event
 	fsOf  *fsTable
-	emitM sync.Mutex // log+send of one emission is atomic per child
-	style int        // 0 well-behaved (sorted, matching), 1 unsorted/duplicates/non-matching, 2 eose first then events
-	live  bool       // emits live events after its EOSE
+	emitM sync.Mutex    // log+send of one emission is atomic per child
+	style int           // 0 well-behaved (sorted, matching), 1 unsorted/duplicates/non-matching, 2 eose first then events
+	live  bool          // emits live events after its EOSE
+	slow  time.Duration // pause before each emission of a REQ script (a child that is still answering while others are done)
 	jit   func()
 
 	mu     sync.Mutex
 	open   map[string]bool
 	liveN  int
 	stopLv chan struct{}
+	lvDone chan struct{} // closed when the live emitter has stopped
 }
 
 func (c *scriptedChild) emit(ctx context.Context, send chan<- mocrelay.ServerMsg, m mocrelay.ServerMsg) bool {
@@ -165,6 +167,7 @@ func (c *scriptedChild) ServeNostr(ctx context.Context, send chan<- mocrelay.Ser
 		wg.Add(1)
 		go func() {
 			defer wg.Done()
+			defer close(c.lvDone)
 			for {
 				select {
 				case <-ctx.Done():
@@ -232,10 +235,16 @@ func (c *scriptedChild) ServeNostr(ctx context.Context, send chan<- mocrelay.Ser
 					}
 				}
 				for _, e := range evs {
+					if c.slow > 0 {
+						time.Sleep(c.slow)
+					}
 					if !c.emit(ctx, send, mocrelay.NewServerEventMsg(m.SubscriptionID, c.conc.Event(e, "stored"))) {
 						return ctx.Err()
 					}
 					c.jit()
+				}
+				if c.slow > 0 {
+					time.Sleep(c.slow)
 				}
 				if c.style != 2 {
 					if !c.emit(ctx, send, mocrelay.NewServerEOSEMsg(m.SubscriptionID)) {
@@ -326,12 +335,22 @@ func runMergeScenario(run *core.Run, seed int64, nChildren int, what string) (tv
 			}
 		}
 		c := &scriptedChild{idx: i, rec: rec, conc: conc, r: rr, pool: p, evOf: map[string]abs.Event{}, fsOf: fsOf,
-			style: rr.Intn(3), live: what == "req" && rr.Intn(2) == 0, jit: jitter(rr), open: map[string]bool{}, stopLv: make(chan struct{})}
+			style: rr.Intn(3), live: what == "req" && rr.Intn(2) == 0, jit: jitter(rr), open: map[string]bool{}, stopLv: make(chan struct{}), lvDone: make(chan struct{})}
 		for k, v := range evOf {
 			c.evOf[k] = v
 		}
 		children = append(children, c)
 		handlers = append(handlers, c)
+	}
+	// every 4th REQ scenario: the last child answers slowly and the client closes a subscription
+	// shortly after opening it, so that the CLOSE meets a child that is still answering
+	closeRace := what == "req" && seed%4 == 3 && nChildren >= 2
+	if closeRace {
+		last := children[len(children)-1]
+		last.slow = time.Duration(60+r.Intn(200)) * time.Microsecond
+		if last.style == 2 {
+			last.style = 0
+		}
 	}
 	h := mocrelay.NewMergeHandler(handlers...)
 	ctx, cancel := context.WithCancel(context.Background())
@@ -438,6 +457,12 @@ func runMergeScenario(run *core.Run, seed int64, nChildren int, what string) (tv
 					}
 				}
 				stuck = !offer(&mocrelay.ClientReqMsg{SubscriptionID: s, ReqFilters: conc.Filters(fs)})
+				if closeRace && !stuck && r.Intn(3) != 0 {
+					time.Sleep(time.Duration(r.Intn(500)) * time.Microsecond)
+					closed[s] = true
+					stuck = !offer(&mocrelay.ClientCloseMsg{SubscriptionID: s})
+					continue
+				}
 				if r.Intn(2) == 0 { // often wait for the EOSE so that live events flow
 					egMu.Lock()
 					ch := eoseGot[s]
@@ -469,9 +494,20 @@ func runMergeScenario(run *core.Run, seed int64, nChildren int, what string) (tv
 	for _, c := range children {
 		close(c.stopLv)
 	}
+	// the live emitters have stopped (an emission in progress is finished) before the final sentinel is sent
+	emittersStopped := true
+	for _, c := range children {
+		if c.live {
+			select {
+			case <-c.lvDone:
+			case <-time.After(2 * time.Second):
+				emittersStopped = false
+			}
+		}
+	}
 	time.Sleep(500 * time.Microsecond)
 	complete := false
-	if !stuck && offer(&mocrelay.ClientCountMsg{SubscriptionID: sentinelSub, ReqFilters: conc.Filters([]abs.Filter{{}})}) {
+	if !stuck && emittersStopped && offer(&mocrelay.ClientCountMsg{SubscriptionID: sentinelSub, ReqFilters: conc.Filters([]abs.Filter{{}})}) {
 		select {
 		case <-sentinel:
 			complete = true
@@ -529,6 +565,30 @@ func mergeModel(run *core.Run, mode string) {
 	}
 	run.Add("model_states", res.Generated)
 	run.Add("model_behaviours", res.SimTraces)
+	// exhaustive configurations (every interleaving): reduced child scripts (Small = TRUE), two children;
+	// "ok": 2 client messages (68k states, quick and thorough); "req": 2 client messages (15M states, thorough)
+	var cfgs []string
+	if mode == "ok" {
+		cfgs = append(cfgs, "MergeMC_exok.cfg")
+		if run.Thorough() {
+			cfgs = append(cfgs, "MergeMC_exok3.cfg") // 3 client messages: 31M states
+		}
+	} else if run.Thorough() {
+		cfgs = append(cfgs, "MergeMC_ex.cfg")
+	}
+	for _, cfg := range cfgs {
+		res, err := tlcrun.Run(tlcrun.Options{Module: "MergeMC", Config: cfg, Workers: 16, Timeout: 40 * time.Minute, Heap: "20g"})
+		if err != nil || !res.OK {
+			tail := ""
+			if res != nil {
+				tail = res.Tail
+			}
+			run.Problem("TLC failed on / found an error in the exhaustive configuration %s of MergeMC (model error, not a verdict on the code): %v\n%s", cfg, err, tail)
+			continue
+		}
+		run.Add("model_states_exhaustive", res.Distinct)
+		run.Add("model_states", res.Generated)
+	}
 }
 
 func mergeCheck(run *core.Run, what string, n int) {
@@ -636,7 +696,6 @@ func mergeCanary(run *core.Run, what string) {
 	}
 	run.Problem("no canary trace could be produced")
 }
-
 
 // tap wraps a real child handler and records what it receives from the merge
 // (chrecv, after receiving) and what it emits (emits, before offering it to
